@@ -75,6 +75,7 @@ class Obl:
         self.expect = 'unsat'   # cover obligations expect 'sat'
         self.skolems = []
         self.ninst = 0
+        self.block = None
         self.inputs = None      # replay info
 
 
@@ -116,6 +117,9 @@ class VC:
         self.quant_axioms = []
         self.tid_facts = set()
         self.def_memo = {}
+        self.assume_block = {}
+        self.cur_block = None
+        self.reach_sets = None
         self.qas = []
         self.qa_cache = {}
         self.inst_terms = []
@@ -179,6 +183,15 @@ class VC:
         t = imp(guard, term)
         if t != 'true':
             self.assumes.append(t)
+            self.assume_block[len(self.assumes) - 1] = self.cur_block if guard != 'true' else None
+
+    def relevant(self, idx, obl):
+        """path slicing: an assumption made in block B (guarded by B's reachability) can only matter for an
+        obligation in block O if B reaches O in the CFG; dropping the others is sound"""
+        b = self.assume_block.get(idx)
+        if b is None or obl.block is None or self.reach_sets is None:
+            return True
+        return obl.block in self.reach_sets.get(b, ())
 
     def assume_forall(self, guard, fn, nvars=1):
         """universally quantified fact given as a Python closure over index terms; used through ground
@@ -189,6 +202,7 @@ class VC:
         qa['id'] = len(self.qas)
         self.qas.append(qa)
         self.assumes.append(('qa', qa))
+        self.assume_block[len(self.assumes) - 1] = self.cur_block if qa.get('guard', 'true') != 'true' else None
 
     def instantiate_qas(self, obl):
         """ground instances of assumed universal clauses at the goal's skolem constants and at index terms"""
@@ -207,8 +221,10 @@ class VC:
             l = cands.setdefault(sort, [])
             if term not in l and len(l) < 10:
                 l.append(term)
-        for a in self.assumes[:obl.nassume]:
+        for ai, a in enumerate(self.assumes[:obl.nassume]):
             if not isinstance(a, tuple):
+                continue
+            if not self.relevant(ai, obl):
                 continue
             qa = a[1]
             lists = [cands.get(s, []) for (_, s, _) in qa['vars']]
@@ -251,6 +267,7 @@ class VC:
             nm += ':' + re.sub(r'\s+', ' ', clause)
         o = Obl(nm, kind, guard, goal, len(self.assumes), list(tags), line, self.fname, clause)
         o.ninst = len(self.inst_terms)
+        o.block = self.cur_block
         self.obls.append(o)
         return o
 
@@ -520,8 +537,8 @@ class VC:
             out.append('(assert %s)' % a)
         for a in rec_axioms:
             out.append('(assert %s)' % a)
-        for a in self.assumes[:obl.nassume]:
-            if not isinstance(a, tuple):
+        for ai, a in enumerate(self.assumes[:obl.nassume]):
+            if not isinstance(a, tuple) and self.relevant(ai, obl):
                 out.append('(assert %s)' % a)
         for a in qinst:
             out.append('(assert %s)' % a)
